@@ -367,7 +367,9 @@ def oracle(c, stats):
         if len(ppos) == 0:
             break
         r2 = copy.deepcopy(cur_r)
-        r2["type_labels"] = [l + "_v%d" % (si + 2) for l in r2["type_labels"]]
+        if stp["retable"] % 3:
+            r2["type_labels"] = [l + "_v%d" % (si + 2) for l in r2["type_labels"]]
+        # else: the next pattern uses the SAME type labels and table sizes with different parameters
         r2["type_masses"] = [round(m + 0.001, 6) for m in r2["type_masses"]]
         r2["pair_coeffs"] = [p.replace("ljp", "ljp%d" % (si + 2)) for p in r2["pair_coeffs"]]
         r2["charges"] = [round(c0 + 2.0 * (si + 1) * (1 if c0 > 0 else -1), 6) for c0 in r2["charges"]]
